@@ -29,7 +29,7 @@ func init() {
 			"ctx.File serves through a process-global FS instance; to keep episodes independent the same handler is exercised through ctx.FileFromFS with an identically configured per-episode FS",
 			"for syntactically invalid or multi-range Range headers any RFC-permitted answer is accepted (full 200, 206 of the first range, 416)",
 		},
-		RequiredProbes: []string{"range-closed", "range-open", "range-suffix", "range-unsatisfiable", "range-invalid", "range-multi", "empty-file", "big-file", "small-file", "head", "ims-304", "traversal", "index-file", "concurrent-same-file", "reader-stall", "client-rst", "cache-expired", "ctx-file-route"},
+		RequiredProbes: []string{"range-closed", "range-open", "range-suffix", "range-unsatisfiable", "range-invalid", "range-multi", "empty-file", "big-file", "small-file", "head", "ims-304", "traversal", "index-file", "concurrent-same-file", "reader-stall", "client-rst", "cache-expired", "ctx-file-route", "dir-listing"},
 	}
 }
 
@@ -104,6 +104,7 @@ type c08req struct {
 	ims     string
 	kind    string // range class
 	travers bool
+	dirlist bool
 }
 
 type rangeModel struct {
@@ -259,7 +260,12 @@ func RunC08(ep *core.Episode) {
 			if r.kind != "none" {
 				ep.Probe(r.kind)
 			}
-			switch tp.Weighted("variant", []int{12, 2, 2, 2, 2}) {
+			switch tp.Weighted("variant", []int{12, 2, 2, 2, 2, 1}) {
+			case 5: // a directory without an index file: generated listing or 403, never a crash or a leak
+				r.path = []string{"/static/noindex/", "/static/noindex", "/static/", "/static"}[tp.Choose("dirpath", 4)]
+				r.file = ""
+				r.dirlist = true
+				ep.Probe("dir-listing")
 			case 1: // traversal attempts: must never leave the root
 				r.path = []string{"/static/../secret.txt", "/static/%2e%2e/secret.txt", "/static/..%2fsecret.txt", "/static//../rootsecret.txt", "/static/dir/../../secret.txt", "/static/./../secret.txt", "/file/..%2fsecret.txt", "/static/%2e%2e%2f%2e%2e%2fsecret.txt"}[tp.Choose("trav", 8)]
 				r.file = ""
@@ -411,6 +417,14 @@ func c08CheckResp(ep *core.Episode, conn string, i int, r *c08req, m *wire.Msg, 
 	if r.travers {
 		if m.Status == 200 || m.Status == 206 {
 			ep.Fail("C08.root", "%s: traversal attempt answered with %d and %d body bytes", where, m.Status, len(m.Body))
+			return false
+		}
+		return true
+	}
+	if r.dirlist {
+		// generated content: only its shape is judged (a listing or a refusal, decoded as well-formed HTTP by the client)
+		if m.Status >= 500 || m.Status < 200 {
+			ep.Fail("C08.headers", "%s: directory request answered with %d", where, m.Status)
 			return false
 		}
 		return true
